@@ -322,10 +322,9 @@ def run_enumeration(ctx, name, alpha, maxlen, tag):
             cases = list(strings_of(*job))
             look = dict(zip(cases, replies))
             ctx.tie(name, cases, lambda s: "fromstr " + wire.enc_tf(s), look.__getitem__)
-            for s, w in zip(cases, whats):
+            for s in cases:
                 ctx.count(s, nontrivial=nontrivial(s), tag=tag)
-                if w:
-                    ctx.violation(w, s, footprint(s, w))
+            judge(ctx, [(s, w, look[s]) for s, w in zip(cases, whats) if w])
             total += len(cases)
     ctx.exhaustive.append("%s: all strings of length <=%d over %d symbols: %d" % (tag, maxlen, len(alpha), total))
 
@@ -388,18 +387,38 @@ def token_cases(rng, n):
     return out
 
 
-def footprint(case, what):
-    """D28: clause 4 fails, and the string is in the wide numeric grammar with (a) an 8-bit sequence and no "ESC[" at all
-    (fast path returns it verbatim) or (b) a sequence with an empty parameter."""
+def d28_shaped(case, what):
+    """the numeric clause fails, and the string is in the wide numeric grammar with (a) an 8-bit sequence and no "ESC[" at
+    all (fast path returns it verbatim) or (b) a sequence with an empty parameter"""
     if not what.startswith("numeric:"):
-        return None
+        return False
     r = numeric_scan(case)
     if r is None:
-        return None
+        return False
     _, has8, empty = r
-    if (has8 and "\x1b[" not in case) or empty:
-        return "D28"
-    return None
+    return (has8 and "\x1b[" not in case) or empty
+
+
+def judge(ctx, viols):
+    """viols: [(string, what, reply of the real code in wire form)].  A failing case is attributed to D28 only if it has the
+    D28 shape AND what the real code returned - runs, text and formatting - EQUALS what the recorded defect does, i.e. the
+    reply of the Lean model (an independent parser, not the tree under test) for that string.  Anything else on such an
+    input is an unlisted violation."""
+    cand = [v for v in viols if d28_shaped(v[0], v[1])]
+    model = {}
+    if cand:
+        import lib
+        # a missing/failed driver is infrastructure trouble (InfraError -> exit 2), never a verdict
+        reps = lib.run_driver(["fromstr " + wire.enc_tf(v[0]) for v in cand])
+        model = {v[0]: r for v, r in zip(cand, reps)}
+    for case, what, reply in viols:
+        m = model.get(case)
+        if m is not None and m.startswith("ok ") and m == reply:
+            ctx.violation(what, case, "D28")
+        elif m is not None:
+            ctx.violation("not-D28: " + what + " [D28-shaped input, but the result is not what D28 explains: got %s, D28 gives %s]" % (reply, m), case, None)
+        else:
+            ctx.violation(what, case, None)
 
 
 def small_cases(ctx):
@@ -426,19 +445,21 @@ def check(ctx):
     fm = [(s, a) for s in SAMPLES for a in ({}, {"bold": True}, {"fg": 31, "underline": False}, {"bg": 44, "fg": 37, "blink": True})]
     ctx.tie("C17/fmtstr", fm, lambda c: ("fmtstr %s %s" % (wire.enc_tf(c[0]), wire.enc_atts(c[1]))).rstrip(), impl_fmtstr)
     n_numeric = 0
+    viols = []
     for s in cases:
         w = oracle(s)
         num = numeric_strip(s) is not None
         n_numeric += num and nontrivial(s)
         ctx.count(s, nontrivial=nontrivial(s), tag="small/numeric" if num and nontrivial(s) else "small")
         if w:
-            ctx.violation(w, s, footprint(s, w))
+            viols.append((s, w, impl_fromstr(s)))
+    judge(ctx, viols)
     ctx.note("strings in the numeric-CSI grammar with at least one sequence among the small cases: %d" % n_numeric)
     for s in SURROGATES:
         w = oracle(s)
         ctx.count(s, nontrivial=True, tag="surrogate(oracle only)")
         if w:
-            ctx.violation(w, s, footprint(s, w))
+            ctx.violation(w, s, None)      # not representable in the model: never attributed to a known finding
     # 2. exhaustive enumerations through from_str (sharded over 16 processes)
     run_enumeration(ctx, "C17/fromstr", ALPHA, 6 if ctx.thorough else 5, "exh13")
     run_enumeration(ctx, "C17/fromstr", ALPHA_U, 6 if ctx.thorough else 5, "exh-nonascii-digit")
@@ -446,22 +467,22 @@ def check(ctx):
 
 def search(ctx):
     """tie or proof broke: oracle at thorough bounds"""
+    viols = []
     for s in token_cases(ctx.rng, 200000):
         w = oracle(s)
         ctx.evaluations += 1
         if w:
-            ctx.violation(w, s, footprint(s, w))
-            if len(ctx.violations) > 20:
-                return
+            viols.append((s, w, impl_fromstr(s)))
+    judge(ctx, viols)
+    if any(v["footprint"] is None for v in ctx.violations):
+        return
     if ctx.thorough:
         return
     ctx.thorough = True
     jobs = jobs_for(ALPHA, 6)
     with multiprocessing.get_context("fork").Pool(16) as pool:
-        for job, (_, whats) in zip(jobs, pool.imap(_work, jobs, chunksize=4)):
-            for s, w in zip(strings_of(*job), whats):
-                if w:
-                    ctx.violation(w, s, footprint(s, w))
+        for job, (replies, whats) in zip(jobs, pool.imap(_work, jobs, chunksize=4)):
+            judge(ctx, [(s, w, r) for s, w, r in zip(strings_of(*job), whats, replies) if w])
             ctx.evaluations += len(whats)
             if len(ctx.violations) > 50:
                 return
